@@ -73,6 +73,9 @@ try:
             a, b = regs[st[3]], (regs[st[4]] if isinstance(st[4], str) else st[4])
             regs[st[1]] = {"add": lambda: a + b, "sub": lambda: a - b, "mul": lambda: a * b}[st[2]]()
         elif op == "val": regs[st[1]].val()
+        elif op == "prove":                                   # prove() in the middle of a session (REPL / notebook use): tracing goes on afterwards
+            with contextlib.redirect_stderr(io.StringIO()), contextlib.redirect_stdout(io.StringIO()):
+                qb.prove()
         elif op == "call":
             kind, args, dst = st[1], st[2], st[3]
             if kind not in FN: FN[kind] = make_fn(kind)
